@@ -2,7 +2,7 @@
 from typing import List, Optional
 import types
 
-from harness.common import hit, make_record, run, Status, nosym
+from harness.common import hit, make_record, run, Status, nosym, pick
 import wpull.urlfilter as F
 from wpull.url import URLInfo, is_subdir, schemes_similar
 from wpull.processor.rule import FetchRule
@@ -276,7 +276,7 @@ HARNESSES.append(
 _URLS = ['http://example.com/', 'http://example.com/d/f.html', 'http://example.com/d/', 'http://example.com/dx/f.zip',
          'https://example.com/d/sub/g.ZIP', 'http://sub.example.com/d/f.html', 'http://example.com:8080/d/f.html',
          'ftp://example.com/d/f.html', 'http://other.invalid/d/f.html', 'http://192.0.2.7/d', 'https://example.com/e/f.html',
-         'mailto:user@example.com']
+         'mailto:user@example.com', 'http://sub.example.com.evil.test/d/f.html', 'http://example.com.cdn.test/', 'http://notexample.com/d/', 'http://example.com./d/f.html']
 _UIS = [URLInfo.parse(u) for u in _URLS]
 _PARENTS = [None, 'http://example.com/d/index.html', 'https://other.invalid/p.html', 'ftp://example.com/d/']
 _ROOTS = [None, 'http://example.com/d/index.html', 'https://example.com/d/', 'http://example.com/d', 'http://example.com:8080/']
@@ -338,10 +338,13 @@ def _glob_match(pat, s):
 
 
 def _path_under(dirname, path, wild):
+    """A URL path lies in a listed directory when the directory (a shell pattern when `wild`) names the path itself or one of its
+    parent directories: -X /cgi-bin excludes /cgi-bin, /cgi-bin/ and /cgi-bin/a/x.cgi alike (wget's --include/--exclude-directories)."""
     d = dirname if dirname.endswith('/') else dirname + '/'
     p = path if path.endswith('/') else path + '/'
     if wild:
-        return _glob_match(d, p)
+        cuts = [i + 1 for i, ch in enumerate(p) if ch == '/']
+        return any(_glob_match(d, p[:c]) for c in cuts)
     return p[:len(d)] == d
 
 
@@ -513,6 +516,48 @@ def _ftp_events(verdict, ui, lt, glob, reject_dir):
     return url, events, item, env
 
 
+def _ftp_child_depth(level0, pat_i, glob):
+    """Depth bookkeeping of FTP listings: what a directory listing (or a glob over it) adds to the queue is one level deeper than the
+    listed directory - except files matched by a URL glob, which stand for the glob URL itself and keep its level.  The depth limit
+    (LevelFilter) acts on these numbers."""
+    pat = pick(['d*', '*', 'data?.txt', '*s', 'zz*'], pat_i)
+    url = 'ftp://example.com/pub/' + (pat if glob else '')
+    with nosym():
+        client = stubs.StubFTPClient(files=[FileEntry('docs', 'dir'), FileEntry('data1.txt', 'file'), FileEntry('other.bin', 'file'), FileEntry('dx', 'dir')])
+        env = stubs.build_ftp(client, filters=[F.SchemeFilter()], glob=True)
+        env.table.add(url, level=level0)
+        rec = env.table.check_out(Status.todo)
+        rec.link_type = LinkType.directory if not glob else None
+        item = ItemSession(env.app, rec)
+    run(env.proc.process(item))
+    item.finish()
+    n = 0
+    for u, row in env.table.rows.items():
+        if u == url:
+            continue
+        n += 1
+        name = u.rstrip('/').rsplit('/', 1)[-1]
+        if glob and not _glob_q(pat, name):
+            return False                                # an entry the glob does not match was queued
+        if u.endswith('/'):
+            if row.level != level0 + 1:
+                return False                            # a sub-directory is one level deeper
+        elif row.level != (level0 if glob else level0 + 1):
+            return False
+    hit('children' if n else 'none')
+    return True
+
+
+def _glob_q(pat, s):
+    if pat == '':
+        return s == ''
+    if pat[0] == '*':
+        return any(_glob_q(pat[1:], s[k:]) for k in range(len(s) + 1))
+    if pat[0] == '?':
+        return s != '' and _glob_q(pat[1:], s[1:])
+    return s != '' and s[0] == pat[0] and _glob_q(pat[1:], s[1:])
+
+
 def _consulted_ftp(verdict, ui, lt, glob):
     url, events, item, env = _ftp_events(verdict, ui, lt, glob, False)
     helper_region = (lt == 0 and ui != 1) or (ui == 2 and glob)      # D13: helper listing of the parent directory / glob directory
@@ -553,6 +598,11 @@ def _ftp_helper_listing(ui, glob):
 
 
 HARNESSES += [
+    H('ftp_child_depth', '_ftp_child_depth', 'level0: int, pat_i: int, glob: bool', pre=['0 <= level0 <= 3 and 0 <= pat_i <= 4'],
+      timeout={'quick': 200, 'thorough': 400}, samples=[(0, 0, True), (2, 0, False), (1, 4, True)], need=['children', 'none'],
+      funcs=['wpull/processor/ftp.py:FTPProcessorSession._add_listing_links', 'wpull/pipeline/session.py:ItemSession.add_child_url'],
+      doc='depth numbers given to the entries of an FTP listing (plain and through a URL glob, 5 patterns): sub-directories are one level '
+          'below the listed directory, only entries matching the glob are queued, glob-matched files keep the level of the glob URL'),
     H('consulted_ftp', '_consulted_ftp', 'verdict: bool, ui: int, lt: int, glob: bool',
       pre=['0 <= ui <= 2 and 0 <= lt <= 2'], timeout={'quick': 120, 'thorough': 300},
       samples=[(True, 0, 1, True), (False, 1, 2, True), (True, 1, 0, False)], need=['fetched', 'rejected'],
